@@ -69,7 +69,10 @@ class Session:
             from . import dt
             dt.install(V)
         for rname, rd in getattr(side, "RECORDS", {}).items():
-            V.tenv.add_record(rname, rd["fields"], rd.get("mutable"))
+            if rd.get("struct"):
+                V.tenv.add_struct(rname, rd["fields"])
+            else:
+                V.tenv.add_record(rname, rd["fields"], rd.get("mutable"))
         V.tenv.finish()
         if hasattr(side, "setup"):
             side.setup(V)
